@@ -149,9 +149,11 @@ pub mod fixed_arr {
             D: Deserializer<'de>,
         {
             if d.is_human_readable() {
-                let hex_str = <&str>::deserialize(d)?;
+                // An owned string: sources that cannot lend out their text (readers,
+                // parsed documents, escaped strings) only ever offer owned strings
+                let hex_str = String::deserialize(d)?;
                 let mut share = [0u8; N];
-                hex::decode_to_slice(hex_str, &mut share).map_err(de::Error::custom)?;
+                hex::decode_to_slice(hex_str.as_bytes(), &mut share).map_err(de::Error::custom)?;
                 return Ok(share);
             }
 
